@@ -14,12 +14,12 @@
      -> FUEL | CYCLE | STUCK
    null_check <commands> <targets> <sources> <target>
      -> OK n_valid n_invalid   how many recorded command / node values are valid in the world the clean build left
-   valid <commands> <targets> <mutated nodes> <key> <stored value> <stats>
-     the isResultValid verdict of the model for a value read from the build database, in the world described by stats
+   valid <commands> <targets> <mutated nodes> <stats> <key1=value1,key2=value2,...>
+     the isResultValid verdict of the model for values read from the build database, in the world described by stats
      key    = C<name hex> | N<name hex> | T<name hex>
      value  = the BuildValue bytes (hex) as stored in rule_results.value
-     stats  = p1/dev:ino:mode:size:sec:nsec;p2/x;...   (x = missing; paths not listed are missing)
-     -> V | I | O (OverRead) | UNDECODABLE *)
+     stats  = p1/dev:ino:mode:size:sec:nsec;...   (paths not listed are missing)
+     -> one letter per pair: V | I | O (OverRead) | U (undecodable value) *)
 let split_list c s = if s = "" || s = "." then [] else String.split_on_char c s
 let tool_of = function "s" -> TShell | "p" -> TPhony | "m" -> TMkdir | _ -> TSymlink
 let cmd_of_string s = match String.split_on_char ':' s with
@@ -98,10 +98,13 @@ let key_of_string s =
   match s.[0] with 'C' -> KC name | 'N' -> KN name | _ -> KT name
 let () =
   register "valid" (function
-      | [cmds; targets; mutated; key; value; stats] ->
+      | [cmds; targets; mutated; stats; pairs] ->
         let d = desc_of cmds targets mutated in
-        (match dec_value (bytes_of_hex value) with
-         | None -> "UNDECODABLE"
-         | Some v -> (match rule_valid d (world_of_stats stats) (key_of_string key) v with
-             | Valid -> "V" | Invalid -> "I" | OverRead -> "O"))
+        let w = world_of_stats stats in
+        String.concat "" (List.map (fun kv -> match String.split_on_char '=' kv with
+            | [key; value] ->
+              (match dec_value (bytes_of_hex value) with
+               | None -> "U"
+               | Some v -> (match rule_valid d w (key_of_string key) v with Valid -> "V" | Invalid -> "I" | OverRead -> "O"))
+            | _ -> "?") (split_list ',' pairs))
       | _ -> "ERR args")
